@@ -1,0 +1,19 @@
+//go:build verif
+
+// Contracts for the sgn0 helpers of hash-to-curve on the twist over Fp2 (RFC 9380 4.1), comment-only; see the
+// G1 file of this package for the conventions.
+
+package hash_to_curve
+
+//@ func G2Sgn0
+//@ option field fp
+//@ requires val(z.A0) < q && val(z.A1) < q
+//@ ensures[value] result == ite(reg(val(z.A0)) == 0, reg(val(z.A1)) % 2, reg(val(z.A0)) % 2)
+//@ modifies nothing
+//@ end
+
+//@ func G2NotZero
+//@ option field fp
+//@ ensures[value] (result == 0) == (val(x.A0) == 0 && val(x.A1) == 0)
+//@ modifies nothing
+//@ end
